@@ -98,7 +98,7 @@ def gen_log(ptag, tier, rng):
                             one = "stx" + one[2:]     # the statement runs on another thread than the one that configured the filter
                         out.append(lcase(ptag, m, 0, 1 + 2 * (base % 2), [["thr:0:%d", "thrx:0:%d"][base % 5 == 0] % thr, one]))
     # every filter type x threshold triples (sampled), two members configurations
-    for fid in range(10):
+    for fid in range(13):
         for m in (0, 2, 4):
             for t0, t1, t2 in itertools.product((0, 2, 3, 5), repeat=3):
                 for sev in (0, 1, 2, 3, 4, 5):
@@ -123,7 +123,7 @@ def gen_log(ptag, tier, rng):
     # histories: several statements, thresholds changing in between
     for _ in range(20000 if big else 2500):
         m = rng.below(6)
-        fid = rng.below(10)
+        fid = rng.below(13)
         ops = []
         for _ in range(1 + rng.below(8)):
             if rng.chance(1, 4):
@@ -188,3 +188,6 @@ C10 = Prop(
 
 for _p in (C05, C10):
     _p.rule += " Callables also come as a plain function, as a pointer to a function and as a capturing lambda lvalue."
+
+for _p in (C05, C10):
+    _p.rule += " Filter types 10-12: two-operand windows (T0 and not T1, in both operand orders; not T0 or T1) with independent - also inverted - thresholds."
